@@ -24,7 +24,10 @@ RULE = ("dt-*: C01-style stratified programs (facts, probabilistic facts, ADs, p
         "score == EU(returned) and EU(returned) == max EU (1e-9; ties by value). dt-local: score == EU(returned) and "
         "no single flip of a decision improves EU; 'Local search does not support constraints' is accepted when the "
         "program has a multi-head decision AD. Decisions ProbLog leaves out must not matter (EU equal for all their "
-        "values). map: ground probabilistic facts as the only queries + rules + 0-3 evidence atoms, run through "
+        "values); decisions it returns that cannot influence a utility are ignored. A returned key that is not the "
+        "name of a decision is resolved to the unique unassigned decision alternative that holds in exactly the same "
+        "worlds (so that score and optimality are still checked) and is then reported as "
+        "strategy-key-not-a-decision:alias. map: ground probabilistic facts as the only queries + rules + 0-3 evidence atoms, run through "
         "problog.tasks.map.main; documented objective = DT-ProbLog with the query facts as decisions and utilities "
         "P(q|e) on q and 1-P(q|e) on \\+q, i.e. objective(x) = sum_q (P(q|e) if x_q else 1-P(q|e)); the returned "
         "assignment covers exactly the query facts, is consistent with the evidence (P(e | facts set to x) > 0), "
@@ -63,7 +66,9 @@ class DTRef(object):
         relevant_heads = set(ch for head, pos, neg, ch in res.rules if ch is not None)
         # decision choices that are relevant for some utility atom
         self.decisions = []  # dicts: ci, kind ('fact'|'rule'|'ad'), stmt (index in prog), nheads, subst, heads[]
-        for ci in res.used_choices:
+        self.irrelevant = []  # same, for ground decisions that cannot influence any utility atom
+        used = set(res.used_choices)
+        for ci in range(len(res.gp.choices)):
             ridx, key = res.gp.choice_info[ci]
             s = prog[self.idxmap[ridx]]
             if s[0] == "dfact":
@@ -73,10 +78,11 @@ class DTRef(object):
                 kind = "ad" if nheads > 1 else "rule"
             else:
                 continue
-            self.decisions.append({"ci": ci, "kind": kind, "stmt": self.idxmap[ridx], "nheads": nheads,
-                                   "subst": tuple(str(k[1]) for k in key),
-                                   "heads": [self.head_of.get((ci, vi)) for vi in range(nheads)],
-                                   "irrelevant": [vi for vi in range(nheads) if (ci, vi) not in relevant_heads]})
+            (self.decisions if ci in used else self.irrelevant).append({
+                "ci": ci, "kind": kind, "stmt": self.idxmap[ridx], "nheads": nheads,
+                "subst": tuple(str(k[1]) for k in key),
+                "heads": [self.head_of.get((ci, vi)) for vi in range(nheads)],
+                "irrelevant": [vi for vi in range(nheads) if (ci, vi) not in relevant_heads]})
         self.utilities = []
         for s in prog:
             if s[0] == "utility":
@@ -99,6 +105,36 @@ class DTRef(object):
         doms = [self.allowed_values(d) for d in self.decisions]
         for combo in itertools.product(*doms):
             yield dict((d["ci"], v) for d, v in zip(self.decisions, combo))
+
+    def atom_probs(self, sigma):
+        """P(atom | strategy) for every utility atom."""
+        res = self.res
+        m = res.posw
+        for ci, v in sigma.items():
+            m &= res.cmask[(ci, v)]
+        z = sem._weight(m, res.weights)
+        return tuple(Fraction(sem._weight(res.masks.get(a, 0) & m, res.weights), z) for a, _, _ in self.utilities)
+
+    def decisions_without_influence(self):
+        """(decision, head index) pairs reachable from a utility atom such that taking that alternative or taking
+        none changes the probability of no utility atom, whatever the other decisions are."""
+        out = []
+        for d in self.decisions:
+            others = [o for o in self.decisions if o is not d]
+            doms = [self.allowed_values(o) for o in others]
+            for vi in range(d["nheads"]):
+                same = True
+                for combo in itertools.product(*doms):
+                    sg = dict((o["ci"], v) for o, v in zip(others, combo))
+                    sg[d["ci"]] = vi
+                    a = self.atom_probs(sg)
+                    sg[d["ci"]] = d["nheads"]
+                    if a != self.atom_probs(sg):
+                        same = False
+                        break
+                if same:
+                    out.append((d, vi))
+        return out
 
     def eu(self, sigma):
         res = self.res
@@ -167,10 +203,12 @@ def map_strategy(ref, choices):
 
     Returns (sigma {ci: value} for the decisions ProbLog assigned, aliases [text], missing [decision], problem)
     where problem is None | ('failure', kind, detail) | ('inconclusive', reason)."""
-    by_ci = dict((d["ci"], d) for d in ref.decisions)
+    everything = ref.decisions + ref.irrelevant
+    relevant_ci = set(d["ci"] for d in ref.decisions)
+    by_ci = dict((d["ci"], d) for d in everything)
     fact_by_name = {}
     dup = set()
-    for d in ref.decisions:
+    for d in everything:
         if d["kind"] == "fact":
             name = d["heads"][0]
             if name in fact_by_name:
@@ -196,7 +234,7 @@ def map_strategy(ref, choices):
                 got[d["ci"]] = {0: v}
                 continue
             # head of a decision rule / AD instance reported under its own name (what main() prints anyway)
-            hs = [(d2, vi) for d2 in ref.decisions if d2["kind"] != "fact"
+            hs = [(d2, vi) for d2 in everything if d2["kind"] != "fact"
                   for vi, h in enumerate(d2["heads"]) if h == name]
             if len(hs) == 1 and name not in fact_by_name:
                 got.setdefault(hs[0][0]["ci"], {})[hs[0][1]] = v
@@ -206,9 +244,9 @@ def map_strategy(ref, choices):
                 plain.append((name, v))
     # decision rules / ADs: match ProbLog's clause numbers to statements (order preserving)
     if groups:
-        ref_stmts = sorted(set(d["stmt"] for d in ref.decisions if d["kind"] != "fact"))
+        ref_stmts = sorted(set(d["stmt"] for d in everything if d["kind"] != "fact"))
         sig_of = {}
-        for d in ref.decisions:
+        for d in everything:
             if d["kind"] != "fact":
                 for vi, h in enumerate(d["heads"]):
                     sig_of.setdefault(d["stmt"], {})[(vi, h, d["subst"])] = d["ci"]
@@ -257,6 +295,8 @@ def map_strategy(ref, choices):
     sigma = {}
     for ci, vals in got.items():
         d = by_ci[ci]
+        if ci not in relevant_ci:
+            continue  # cannot influence any utility atom: any value will do
         ones = [vi for vi, v in vals.items() if v == 1]
         if len(ones) > 1:
             return None, None, None, ("failure", "ad-constraint-violated",
@@ -434,56 +474,101 @@ def map_query_is_ad_head(prog):
     return any(s[0] == "ad" and len(s[1]) > 1 and any(a in qs for _, a in s[1]) for s in prog)
 
 
+class MapRef(object):
+    """Reference view of a MAP program: posterior marginals of the query facts, which assignments of the query
+    facts can hold together with the evidence, and the documented objective of each."""
+
+    def __init__(self, prog):
+        self.queries = []
+        for s in prog:
+            if s[0] == "query" and s[1] not in self.queries:
+                self.queries.append(s[1])
+        self.qnames = [sem.render_atom(a) for a in self.queries]
+        # (1) posterior marginals of the query facts in the program itself
+        self.ref = sem.evaluate(prog, max_choices=12, max_worlds=MAX_WORLDS)
+        # (2) the same program with uniform query facts: which assignments can be true together with the evidence
+        qset = set((a[0], tuple(tuple(t) for t in a[1])) for a in self.queries)
+
+        def isq(a):
+            return (a[0], tuple(tuple(t) for t in a[1])) in qset
+
+        uprog = []
+        for s in prog:
+            if s[0] == "pfact" and isq(s[2]):
+                uprog.append(["pfact", "1/2", s[2]])
+            elif s[0] == "ad" and any(isq(a) for _, a in s[1]):
+                uprog.append(["ad", [["1/%d" % (len(s[1]) + 1), a] for _, a in s[1]], s[2]])
+            else:
+                uprog.append(s)
+        self.uref = sem.evaluate(uprog, max_choices=12, max_worlds=MAX_WORLDS, want_masks=True)
+        self.masks = {}
+        for a, name in zip(self.queries, self.qnames):
+            self.masks[name] = self.uref.masks.get((a[0], tuple((t[0], t[1]) for t in a[1])), 0)
+        self.evidence_atoms = [(s[1][0], tuple((t[0], t[1]) for t in s[1][1])) for s in prog if s[0] == "evidence"]
+        self.marg = None
+        if not self.ref.inconsistent:
+            self.marg = dict((k, self.ref.probs[k]) for k in self.qnames)
+
+    def weight_of(self, x):
+        u = self.uref
+        m = u.emask & u.posw
+        for name in self.qnames:
+            m &= self.masks[name] if x[name] else (u.full & ~self.masks[name])
+        return sem._weight(m, u.weights)
+
+    def objective(self, x):
+        return sum((self.marg[n] if x[n] else 1 - self.marg[n]) for n in self.qnames)
+
+    def assignments(self):
+        for bits in itertools.product([0, 1], repeat=len(self.qnames)):
+            yield dict(zip(self.qnames, bits))
+
+
 def map_evidence_on_query_fact(prog):
-    """Some evidence atom is a query fact, or is defined by a single clause whose body is one positive query fact
-    (the evidence node then *is* the query fact's node)."""
-    qs = [s[1] for s in prog if s[0] == "query"]
-    for e in prog:
-        if e[0] != "evidence":
-            continue
-        if e[1] in qs:
-            return True
+    """Some evidence atom is true in exactly the worlds in which one query fact is true (or false): it is the
+    query fact itself or an alias of it such as 'c :- a.', so the evidence constraint is on a decision node."""
+    try:
+        mr = MapRef(prog)
+    except Exception:
+        return False
+    u = mr.uref
+    for e in mr.evidence_atoms:
+        em = u.masks.get(e, 0) & u.posw
+        for name in mr.qnames:
+            qm = mr.masks[name] & u.posw
+            if em == qm or em == ((u.full & ~mr.masks[name]) & u.posw):
+                return True
     return False
+
+
+def map_unconstrained_optimum_inconsistent(prog):
+    """Some assignment of the query facts that cannot hold together with the evidence has an objective at least as
+    large as the best consistent one (the search of map.py does not look at consistency)."""
+    try:
+        mr = MapRef(prog)
+    except Exception:
+        return False
+    if mr.marg is None:
+        return False
+    cons, incons = [], []
+    for x in mr.assignments():
+        (cons if mr.weight_of(x) > 0 else incons).append(mr.objective(x))
+    return bool(cons) and bool(incons) and max(incons) >= max(cons)
 
 
 def check_map(case):
     prog = case["prog"]
     feats = set(x for x in gp.features(prog))
     src = sem.render_program(prog)
-    queries = []
-    for s in prog:
-        if s[0] == "query" and s[1] not in queries:
-            queries.append(s[1])
-    qnames = [sem.render_atom(a) for a in queries]
-    # (1) posterior marginals of the query facts in the program itself
     try:
-        ref = sem.evaluate(prog, max_choices=12, max_worlds=MAX_WORLDS)
+        mr = MapRef(prog)
     except sem.TooLarge:
         return Outcome(inconclusive="oversize", features=sorted(feats))
-    # (2) the same program with uniform query facts: which assignments can be true together with the evidence
-    qset = set(tuple([a[0], tuple(tuple(t) for t in a[1])]) for a in queries)
-
-    def isq(a):
-        return (a[0], tuple(tuple(t) for t in a[1])) in qset
-
-    uprog = []
-    for s in prog:
-        if s[0] == "pfact" and isq(s[2]):
-            uprog.append(["pfact", "1/2", s[2]])
-        elif s[0] == "ad" and any(isq(a) for _, a in s[1]):
-            uprog.append(["ad", [["1/%d" % (len(s[1]) + 1), a] for _, a in s[1]], s[2]])
-        else:
-            uprog.append(s)
-    try:
-        uref = sem.evaluate(uprog, max_choices=12, max_worlds=MAX_WORLDS, want_masks=True)
-    except sem.TooLarge:
-        return Outcome(inconclusive="oversize", features=sorted(feats))
+    ref, uref, qnames = mr.ref, mr.uref, mr.qnames
     if ref.undefined_any or uref.undefined_any:
         return Outcome(inconclusive="not-two-valued", features=sorted(feats))
     if map_query_is_ad_head(prog):
         feats.add("map:query-on-ad-head")
-    if map_evidence_on_query_fact(prog):
-        feats.add("map:evidence-on-query-fact")
     sample = {"program": src}
     res = run_map(src)
     if res[0] == "resource":
@@ -498,26 +583,15 @@ def check_map(case):
         return Outcome(features=sorted(feats), classes=["answered"], sample=sample, failure=Failure(
             "inconsistent-evidence-not-rejected", "program:\n%s\nP(evidence)=0 but map returned %s" % (
                 src, dict((str(k), v) for k, v in res[1][0].items()))))
-    marg = dict((k, ref.probs[k]) for k in qnames)
-    masks = {}
-    for a, name in zip(queries, qnames):
-        key = (a[0], tuple((t[0], t[1]) for t in a[1]))
-        masks[name] = uref.masks.get(key, 0)
-
-    def weight_of(x):
-        m = uref.emask & uref.posw
-        for name in qnames:
-            m &= masks[name] if x[name] else (uref.full & ~masks[name])
-        return sem._weight(m, uref.weights)
-
-    def objective(x):
-        return sum((marg[n] if x[n] else 1 - marg[n]) for n in qnames)
+    marg = mr.marg
+    weight_of, objective = mr.weight_of, mr.objective
 
     consistent = []
-    for bits in itertools.product([0, 1], repeat=len(qnames)):
-        x = dict(zip(qnames, bits))
+    for x in mr.assignments():
         if weight_of(x) > 0:
             consistent.append((objective(x), x))
+    if len(consistent) < (1 << len(qnames)):
+        feats.add("map:some-assignment-inconsistent")
     objs = set(o for o, _ in consistent)
     nontrivial = len(qnames) >= 2 and len(objs) >= 2
     best = max(objs) if objs else None
@@ -583,10 +657,17 @@ def _is_dt(case):
 
 
 def _no_relevant_decision(case, failure):
+    """No ground decision alternative changes the probability of a utility atom."""
     if not _is_dt(case):
         return False
     try:
-        return not DTRef(case["prog"]).decisions
+        ref = DTRef(case["prog"])
+        if not ref.decisions:
+            return True
+        if ref.n_strategies() > MAX_STRATEGIES:
+            return False
+        dead = set((d["ci"], vi) for d, vi in ref.decisions_without_influence())
+        return all((d["ci"], vi) in dead for d in ref.decisions for vi in range(d["nheads"]))
     except Exception:
         return False
 
@@ -625,8 +706,25 @@ def _dad_with_irrelevant_head(case, failure):
                for d in ref.decisions)
 
 
+def _decision_without_influence(case, failure):
+    """The value of some ground decision alternative changes the probability of no utility atom (if DT-ProbLog's
+    grounding reaches it, the compiled formula still does not contain it)."""
+    if not _is_dt(case):
+        return False
+    try:
+        ref = DTRef(case["prog"])
+        if ref.n_strategies() > MAX_STRATEGIES:
+            return False
+        return bool(ref.irrelevant) or bool(ref.decisions_without_influence())
+    except Exception:
+        return False
+
+
 KNOWN_CLASSES = {
     "dad_with_irrelevant_head": _dad_with_irrelevant_head,
+    "decision_without_influence": _decision_without_influence,
+    "map_unconstrained_optimum_inconsistent": lambda case, failure: not _is_dt(case) and
+    map_unconstrained_optimum_inconsistent(case["prog"]),
     "negcycle_fp": lambda case, failure: gp.neg_on_cyclic_goal_under_active_cycle(_plain(case)),
     "neg_under_cycle": lambda case, failure: gp.neg_under_active_cycle(_plain(case)),
     "ad_cyclic_complement": lambda case, failure: gp.cyclic_multihead_ad_with_complementary_body(_plain(case)),
